@@ -7,6 +7,7 @@ open Prelude
 open Total_base
 open Total_msgs
 open Total_codec
+open Total_cap
 
 (* ---- values ---- *)
 let hex_plain (l : coq_N list) : string =
@@ -72,6 +73,14 @@ let init () =
     | [t; ver; d; h] ->
       let id = id_of_name t and body = bytes_of_hex h in
       answer id (parse_msg id (gbk_for body) (n_of_int (int_of_string ver)) (n_of_int (int_of_string d)) fresh body)
+    | _ -> "bad-args");
+  (* c03t <T> <ver> <dialect> <hex> <tailhex> : the spare-capacity decoders of Model/Total_cap.v with the very tail
+     the implementation had behind the slice (String() is not run) *)
+  register "c03t" (fun a -> match a with
+    | [t; ver; d; h; tl] ->
+      let id = id_of_name t and body = bytes_of_hex h in
+      answer_nostr (parse_msg_cap id (gbk_for body) (n_of_int (int_of_string ver)) (n_of_int (int_of_string d)) fresh body
+                      (bytes_of_hex tl))
     | _ -> "bad-args");
   (* c03s <T> <dialect> <ver1>:<hex1> ... : one receiver; a parse that fails leaves the model's receiver as it was
      (the theorems quantify over every receiver, so what a failing Go Parse did to it cannot matter) *)
